@@ -228,6 +228,18 @@ static void canon_into(const MValue &v, ValEq eq, std::string &o) {
 std::string canon(const MValue &v, ValEq eq) { std::string o; canon_into(v, eq, o); return o; }
 std::string show(const MValue &v, size_t maxlen) { std::string s = canon(v, VE_STRICT); if (s.size() > maxlen) { s.resize(maxlen); s += "..."; } return s; }
 
+// the number grammar of CIF (optional sign, digits with an optional decimal point - at least one digit -, optional exponent, optional su)
+bool valid_cif_number(const ustr &t) {
+    size_t i = 0, n = t.size();
+    if (i < n && (t[i] == '+' || t[i] == '-')) ++i;
+    size_t d0 = i; while (i < n && t[i] >= '0' && t[i] <= '9') ++i; size_t nd = i - d0;
+    if (i < n && t[i] == '.') { ++i; size_t f0 = i; while (i < n && t[i] >= '0' && t[i] <= '9') ++i; nd += i - f0; }
+    if (nd == 0) return false;
+    if (i < n && (t[i] == 'e' || t[i] == 'E')) { ++i; if (i < n && (t[i] == '+' || t[i] == '-')) ++i; size_t e0 = i; while (i < n && t[i] >= '0' && t[i] <= '9') ++i; if (i == e0) return false; }
+    if (i < n && t[i] == '(') { ++i; size_t s0 = i; while (i < n && t[i] >= '0' && t[i] <= '9') ++i; if (i == s0 || i >= n || t[i] != ')') return false; ++i; }
+    return i == n;
+}
+std::vector<std::string> *g_classify_problems = NULL;
 MValue snapshot_value(cif_value_tp *v) {
     MValue m;
     if (!v) VIOLATE("snapshot", "null", "NULL value where a value object was promised");
@@ -240,6 +252,17 @@ MValue snapshot_value(cif_value_tp *v) {
             if (rc != CIF_OK || !t) VIOLATE("snapshot", "get_text", "cif_value_get_text -> %s text=%p on a value of kind %d", rc_name(rc), (void *) t, m.kind);
             m.text = from_uchar(t); lib_free(t);
             m.quoted = cif_value_is_quoted(v) != CIF_NOT_QUOTED;
+            if (g_classify_problems && m.kind == CIF_CHAR_KIND && !m.quoted) {
+                // which whitespace-delimited values are numbers is decided on demand (cif_value_get_number coerces): asked of a copy, the
+                // answer must be "a number" exactly for the texts the CIF number grammar derives, and must leave the text alone
+                cif_value_tp *c = NULL;
+                if (cif_value_clone(v, &c) == CIF_OK && c) {
+                    double d = 0; int rc = cif_value_get_number(c, &d); bool want = valid_cif_number(m.text);
+                    if ((rc == CIF_OK) != want || (rc != CIF_OK && rc != CIF_INVALID_NUMBER)) g_classify_problems->push_back(strprintf("the unquoted value %s %s a number by the CIF grammar, but cif_value_get_number returns %s", u8(m.text.substr(0, 60)).c_str(), want ? "is" : "is not", rc_name(rc)));
+                    else if (rc == CIF_OK) { UChar *t2 = NULL; if (cif_value_get_text(c, &t2) == CIF_OK && t2) { if (from_uchar(t2) != m.text || cif_value_kind(c) != CIF_NUMB_KIND) g_classify_problems->push_back(strprintf("coercing %s to a number changed its text or did not make it a number", u8(m.text.substr(0, 60)).c_str())); lib_free(t2); } }
+                    cif_value_free(c);
+                }
+            }
             if (m.kind == CIF_NUMB_KIND) {
                 double d = 0, s = 0;
                 int r1 = cif_value_get_number(v, &d), r2 = cif_value_get_su(v, &s);
